@@ -1,8 +1,19 @@
 import AFV.Driver.Proto
+import AFV.Driver.NestJson
+import AFV.Model.NestValid
 namespace AFV.Driver.C31
-open Lean AFV.Proto
+open Lean AFV.Proto AFV.Nest AFV.Driver.NestJson
 
-/-- Handler for property C31 requests (stub: not implemented yet). -/
-def handle (_req : Json) : Json := err "unimplemented"
+/-- ops:
+  {"op":"eval", …}                                        as C05
+  {"op":"outermost","fusable":[t,…],"mapping":[node,…]}   → {"error": bool}   (run_model's Toll-outermost ValueError) -/
+def handle (req : Json) : Json :=
+  match (field? req "op").bind getStr? with
+  | some "eval" => evalReply req
+  | some "outermost" =>
+    match (field? req "fusable").bind natList?, (field? req "mapping").bind mapping? with
+    | some f, some m => Json.mkObj [("error", Json.bool (tollOutermost f m))]
+    | _, _ => err "malformed"
+  | _ => err "bad-op"
 
 end AFV.Driver.C31
